@@ -274,4 +274,49 @@ pub proof fn lemma_rep_append_big(
     assert(blocks_before_last(d2.len()) == n + c1 + c2);
 }
 
+// ---- output serialisation -------------------------------------------------------------------------
+pub proof fn lemma_nat_to_le_len(v: nat, n: nat)
+    ensures
+        nat_to_le(v, n).len() == n,
+    decreases n,
+{
+    if n > 0 {
+        lemma_nat_to_le_len(v / 256, (n - 1) as nat);
+    }
+}
+
+/// b is the concatenation of the 8-byte little-endian encodings of the words of h
+pub proof fn lemma_words_to_bytes(h: Seq<u64>, b: Seq<u8>)
+    requires
+        b.len() == 8 * h.len(),
+        forall|i: int| 0 <= i < h.len() ==> #[trigger] b.subrange(8 * i, 8 * i + 8) == nat_to_le(h[i] as nat, 8),
+    ensures
+        b == words_to_bytes(h),
+    decreases h.len(),
+{
+    if h.len() == 0 {
+        assert(b =~= Seq::<u8>::empty());
+    } else {
+        let h1 = h.subrange(1, h.len() as int);
+        let b1 = b.subrange(8, b.len() as int);
+        assert forall|i: int| 0 <= i < h1.len() implies #[trigger] b1.subrange(8 * i, 8 * i + 8) == nat_to_le(h1[i] as nat, 8) by {
+            assert(b1.subrange(8 * i, 8 * i + 8) =~= b.subrange(8 * (i + 1), 8 * (i + 1) + 8));
+        }
+        lemma_words_to_bytes(h1, b1);
+        assert(b.subrange(8 * 0int, 8 * 0int + 8) == nat_to_le(h[0] as nat, 8));
+        assert(b =~= b.subrange(0, 8) + b1);
+    }
+}
+
+pub proof fn lemma_words_to_bytes_len(h: Seq<u64>)
+    ensures
+        words_to_bytes(h).len() == 8 * h.len(),
+    decreases h.len(),
+{
+    if h.len() > 0 {
+        lemma_nat_to_le_len(h[0] as nat, 8);
+        lemma_words_to_bytes_len(h.subrange(1, h.len() as int));
+    }
+}
+
 } // verus!
